@@ -123,7 +123,7 @@ class RenameAppLabel(BaseMutation):
             for cur_model_sig in cur_app_sig.model_sigs:
                 for cur_field_sig in cur_model_sig.field_sigs:
                     if cur_field_sig.related_model:
-                        parts = cur_field_sig.related_model.split('.', 1)[1]
+                        parts = cur_field_sig.related_model.split('.', 1)
 
                         if parts[0] == old_app_label:
                             cur_field_sig.related_model = \
